@@ -74,6 +74,9 @@ SPY_NAMES = {"an_time": "T", "an_period": "P"}
 
 
 def _mods():
+    import warnings
+    # fill values / NaT in the argument grids make numpy warn (overflow, invalid value); the outcomes are compared anyway
+    warnings.filterwarnings("ignore", category=RuntimeWarning, module=r"pyorbital\..*")
     from pyorbital import orbital, astronomy, tlefile
     return orbital, astronomy, tlefile
 
@@ -171,7 +174,10 @@ def _times(q, epoch):
     np = _np()
     us = q["us"]
     if q["tk"] == "arr":
-        return epoch + np.array(us, dtype="timedelta64[us]")
+        t = epoch + np.array(us, dtype="timedelta64[us]")
+        for i in q.get("nat") or []:                   # missing scan lines: NaT among the times
+            t[i % len(t)] = np.datetime64("NaT")
+        return t.reshape(q["shape"]) if q.get("shape") else t
     t = epoch + np.timedelta64(us[0], "us")
     if q["tk"] == "py":
         return t.astype(dt.datetime)
@@ -187,9 +193,15 @@ def mkargs(q, epoch):
         return [t, bool(q["normalize"])]
     if m in ("get_lonlatalt", "get_last_an_time"):
         return [t]
-    if m == "get_observer_look":
-        if q["tk"] == "arr":
-            return [t, np.array(q["lon"], dtype=float), np.array(q["lat"], dtype=float), np.array(q["alt"], dtype=float)]
+    if m in ("get_observer_look", "mod_get_observer_look"):
+        def grid(key):
+            # observer grids as a swath product has them: float32/float64, 1-d/2-d, fill values among the coordinates
+            a = np.array([float(v) for v in q[key]], dtype=q.get("dtype", "f8"))
+            return a.reshape(q["shape"]) if q.get("shape") else a
+        if m == "mod_get_observer_look":               # the module-level function: satellite sub-point grids first
+            return [grid("slon"), grid("slat"), grid("salt"), t, grid("lon"), grid("lat"), grid("alt")]
+        if q["tk"] == "arr" or "dtype" in q:
+            return [t, grid("lon"), grid("lat"), grid("alt")]
         return [t, float(q["lon"][0]), float(q["lat"][0]), float(q["alt"][0])]
     if m == "get_orbit_number":
         return [t, bool(q["tbus"]), bool(q["as_float"])]
@@ -200,6 +212,8 @@ def mkargs(q, epoch):
 
 def call(orb, q, args):
     try:
+        if q["m"].startswith("mod_"):                  # module-level function of pyorbital.orbital
+            return getattr(_mods()[0], q["m"][4:])(*args)
         return getattr(orb, q["m"])(*args)
     except Exception as e:  # noqa  an exception is an outcome like any other; it must be the same one
         return e
@@ -228,9 +242,47 @@ def gen_pool(rng):
                  "lon": [rng.uniform(-180, 180) for _ in range(n)], "lat": [rng.uniform(-90, 90) for _ in range(n)],
                  "alt": [rng.uniform(0, 3) for _ in range(n)]})
     pool.append({"m": "get_last_an_time", "tk": rng.choice(["np", "py"]), "us": [us(-day / 4, day / 4)]})
+    pool.extend(fill_queries(rng))
     pool.append({"m": "get_next_passes", "tk": "py", "us": [us(-day / 4, day / 4)], "length": rng.choice([1, 1, 2]),
                  "lon": [rng.uniform(-180, 180)], "lat": [rng.uniform(-80, 80)], "alt": [rng.uniform(0, 2)]})
     return pool
+
+
+FILLS = [-999.0, 1e30, 9999.0, float("nan"), -1e30, 361.0]
+
+
+def fill_grid(rng, n, lo, hi, nfill):
+    """valid coordinates with a few fill values (off-earth pixels of a swath product) among them"""
+    vals = [rng.uniform(lo, hi) for _ in range(n)]
+    for i in rng.sample(range(n), min(n, nfill)):
+        vals[i] = rng.choice(FILLS)
+    return vals
+
+
+def fill_queries(rng):
+    """look-angle queries (method and module-level function) on float32/float64, 1-d/2-d observer grids that contain
+    fill values, and array-time queries with NaT among the times; what they return for those pixels is compared like any
+    other result (used vs fresh object), the argument arrays must come back byte-identical"""
+    day = 86400
+    out = []
+    for m in ("get_observer_look", "mod_get_observer_look"):
+        shape = rng.choice([None, None, [2, 3], [3, 2], [2, 2]])
+        n = shape[0] * shape[1] if shape else rng.randrange(2, 7)
+        tk = rng.choice(["np", "arr", "arr"])
+        q = {"m": m, "tk": tk, "us": [rng.randrange(-day * 10 ** 6, day * 10 ** 6) for _ in range(n if tk == "arr" else 1)],
+             "dtype": rng.choice(["f4", "f8"]), "shape": shape,
+             "lon": fill_grid(rng, n, -180, 180, rng.randrange(1, 3)), "lat": fill_grid(rng, n, -90, 90, rng.randrange(0, 3)),
+             "alt": fill_grid(rng, n, 0, 3, rng.randrange(0, 2))}
+        if tk == "arr" and rng.random() < 0.3:
+            q["nat"] = [rng.randrange(0, n)]
+        if m == "mod_get_observer_look":
+            q.update(slon=[rng.uniform(-180, 180) for _ in range(n)], slat=[rng.uniform(-80, 80) for _ in range(n)],
+                     salt=[rng.uniform(300, 1500) for _ in range(n)])
+        out.append(q)
+    n = rng.randrange(2, 6)
+    out.append({"m": "get_position", "tk": "arr", "us": [rng.randrange(-day * 10 ** 6, day * 10 ** 6) for _ in range(n)],
+                "normalize": rng.random() < 0.5, "nat": [rng.randrange(0, n)]})
+    return out
 
 
 class _Timeout(Exception):
@@ -417,6 +469,7 @@ def gen_history(rng, pool):
 
 # ---------------------------------------------------------------- (1b) aliasing: one argument buffer re-used, changed in place
 ALIAS_KINDS = [("get_position", True), ("get_position", False), ("get_lonlatalt", None), ("get_observer_look", None),
+               ("get_observer_look", None), ("mod_get_observer_look", None),
                ("get_orbit_number", None)]     # the last one rejects arrays (ValueError): the same outcome is required
 
 
@@ -427,9 +480,12 @@ def alias_buffers(sat, h):
     base = (sat.epoch + np.array(h["base_us"], dtype="timedelta64[us]")).astype("datetime64[%s]" % h["unit"])
     times = base[h["view"][0]:h["view"][1]] if h.get("view") else base
     n = len(times)
-    lon = np.array(h["lon"][:n], dtype=float)
-    lat = np.array(h["lat"][:n], dtype=float)
-    alt = np.array(h["alt"][:n], dtype=float)
+    dtype = h.get("dtype", "f8")
+    for i in h.get("nat") or []:
+        base[i % len(base)] = np.datetime64("NaT")
+    lon = np.array([float(v) for v in h["lon"][:n]], dtype=dtype)
+    lat = np.array([float(v) for v in h["lat"][:n]], dtype=dtype)
+    alt = np.array([float(v) for v in h["alt"][:n]], dtype=dtype)
     return base, times, lon, lat, alt
 
 
@@ -448,13 +504,14 @@ def alias_mutate(h, mut, base, times, lon, lat, alt):
         i = mut["i"] % len(base)
         base[i] = base[i] + np.timedelta64(mut["d"], h["unit"])
     elif op == "obs_iadd":                    # observer buffers moved in place
-        lon += mut["dlon"]
-        lon[...] = (lon + 180.0) % 360.0 - 180.0
-        lat[...] = np.clip(lat + mut["dlat"], -89.0, 89.0)
+        ok = np.abs(lon) <= 360.0                     # fill values stay fill values
+        lon[ok] = ((lon[ok] + mut["dlon"]) + 180.0) % 360.0 - 180.0
+        ok = np.abs(lat) <= 90.0
+        lat[ok] = np.clip(lat[ok] + mut["dlat"], -89.0, 89.0)
     elif op == "obs_setitem":
         i = mut["i"] % len(lon)
-        lon[i] = mut["lon"]
-        lat[i] = mut["lat"]
+        lon[i] = float(mut["lon"])
+        lat[i] = float(mut["lat"])
     else:
         raise ValueError(op)
 
@@ -468,6 +525,10 @@ def alias_args(step, times, lon, lat, alt, copy):
         return [c(times)]
     if m == "get_observer_look":
         return [c(times), c(lon), c(lat), c(alt)]
+    if m == "mod_get_observer_look":                   # satellite grids derived from the observer buffers (fresh, valid)
+        np = _np()
+        k = np.arange(len(lon), dtype=float)
+        return [(k * 7.0) % 360.0 - 180.0, (k * 3.0) % 120.0 - 60.0, 800.0 + k, c(times), c(lon), c(lat), c(alt)]
     raise ValueError(m)
 
 
@@ -515,9 +576,13 @@ def gen_alias_history(rng):
         lo = rng.randrange(0, nbase - 1)
         view = [lo, rng.randrange(lo + 1, nbase + 1)]
     n = (view[1] - view[0]) if view else nbase
-    h = {"unit": unit, "base_us": base_us, "view": view,
-         "lon": [rng.uniform(-180, 180) for _ in range(n)], "lat": [rng.uniform(-70, 70) for _ in range(n)],
+    fills = rng.random() < 0.5                         # observer buffers with fill values among the coordinates
+    h = {"unit": unit, "base_us": base_us, "view": view, "dtype": rng.choice(["f4", "f8"]),
+         "lon": fill_grid(rng, n, -180, 180, rng.randrange(1, 3) if fills else 0),
+         "lat": fill_grid(rng, n, -70, 70, rng.randrange(0, 3) if fills else 0),
          "alt": [rng.uniform(0, 3) for _ in range(n)], "steps": []}
+    if rng.random() < 0.1:
+        h["nat"] = [rng.randrange(0, nbase)]           # get_lonlatalt does not return on NaN: those steps are skipped (guard)
 
     def delta():
         return rng.choice([1, -1]) * rng.choice([1, 30, 120, 3600, 5400]) * (10 ** 6 // per) * rng.randrange(1, 4)
@@ -525,7 +590,8 @@ def gen_alias_history(rng):
         if h["steps"] and rng.random() < 0.35:
             m, norm = h["steps"][-1]["m"], h["steps"][-1].get("normalize")
         else:
-            m, norm = rng.choice(ALIAS_KINDS[:4] * 4 + ALIAS_KINDS[4:])
+            kinds = [k for k in ALIAS_KINDS[:6] * 4 + ALIAS_KINDS[6:] if not (h.get("nat") and k[0] == "get_lonlatalt")]
+            m, norm = rng.choice(kinds)
         muts = []
         if k > 0 and rng.random() < 0.85:
             ops = ["iadd", "iadd", "setitem"] + (["base_iadd", "base_iadd", "base_setitem"] if view else [])
@@ -533,8 +599,9 @@ def gen_alias_history(rng):
             muts.append({"op": op, "d": delta(), "i": rng.randrange(0, 8)})
             if rng.random() < 0.3:
                 muts.append(rng.choice([{"op": "obs_iadd", "dlon": rng.uniform(-20, 20), "dlat": rng.uniform(-5, 5)},
-                                        {"op": "obs_setitem", "i": rng.randrange(0, 8), "lon": rng.uniform(-180, 180),
-                                         "lat": rng.uniform(-70, 70)}]))
+                                        {"op": "obs_setitem", "i": rng.randrange(0, 8),
+                                         "lon": rng.choice([rng.uniform(-180, 180), -999.0, 1e30]),
+                                         "lat": rng.choice([rng.uniform(-70, 70), -999.0, 9999.0])}]))
         elif k > 0 and rng.random() < 0.5:
             muts.append({"op": "obs_iadd", "dlon": rng.uniform(-20, 20), "dlat": rng.uniform(-5, 5)})
         st = {"m": m, "mut": muts}
